@@ -46,6 +46,8 @@ type LoopContract struct {
 	invariants []*Clause
 	decreases  *Clause
 	unroll     int
+	skipHasReturn bool
+	skip       bool // loop#n skip: the loop is replaced by an arbitrary change of what its body may assign (lemma-level contracts)
 	modifiesHeap bool
 	used       bool
 }
@@ -54,6 +56,7 @@ type FuncContract struct {
 	deadCount int
 	ignore    []string // callees whose contracts are not used in this body
 	only      []string // if non-empty: the only callees whose contracts are used in this body
+	dbonly    []string // callees assumed to change only database buckets and Go maps (results arbitrary)
 	cbObserves map[string]string // callback <param> observes <ghost>
 	asserts   map[ast.Stmt][]*Clause // at "<stmt>" assert P
 	expand    []string // callees expanded from source in this body
@@ -364,9 +367,10 @@ func installUniverse() {
 
 var clauseKinds = map[string]bool{"guard": true, "callback": true, "step": true, "requires": true, "ensures": true, "invariant": true, "decreases": true,
 	"modifies": true, "props": true, "trusted": true, "pure": true, "inline": true, "unroll": true, "lemma": true,
-	"assume": true, "nopanic": true, "dead": true, "expand": true, "ignore": true, "only": true, "assert": true, "heapframe": true}
+	"assume": true, "nopanic": true, "dead": true, "expand": true, "ignore": true, "only": true, "assert": true, "heapframe": true, "skip": true, "dbonly": true}
 
 var headRe = regexp.MustCompile(`^func\s+(.+)$`)
+var scopeRe = regexp.MustCompile(`^(loop|closure|if)#(\d+)\s+(.*)$`)
 var clauseRe = regexp.MustCompile(`^(?:(loop|closure|if)#(\d+)\s+)?([a-z]+)(?:\[([A-Za-z0-9, ]+)\])?(?:\s+(.*))?$`)
 
 type rawClause struct {
@@ -555,19 +559,18 @@ func parseClauseLine(t string) (*rawClause, bool) {
 		}
 		return &rawClause{scope: "at", ord: n, atText: strings.ReplaceAll(m[1], `\"`, `"`), sub: sub}, true
 	}
-	m := clauseRe.FindStringSubmatch(t)
-	if m == nil {
-		return nil, false
-	}
-	if m[1] != "" {
-		// scope prefix; the remainder is again a clause line
-		rest := strings.TrimSpace(t[len(m[1])+1+len(m[2]):])
-		sub, ok := parseClauseLine(rest)
+	if sm := scopeRe.FindStringSubmatch(t); sm != nil {
+		// scope prefix; the remainder is again a clause line (closure#1 closure#2 loop#1 invariant ...)
+		sub, ok := parseClauseLine(strings.TrimSpace(sm[3]))
 		if !ok {
 			return nil, false
 		}
-		n, _ := strconv.Atoi(m[2])
-		return &rawClause{scope: m[1], ord: n, sub: sub}, true
+		n, _ := strconv.Atoi(sm[2])
+		return &rawClause{scope: sm[1], ord: n, sub: sub}, true
+	}
+	m := clauseRe.FindStringSubmatch(t)
+	if m == nil {
+		return nil, false
 	}
 	if !clauseKinds[m[3]] {
 		return nil, false
@@ -1301,6 +1304,22 @@ func (p *Program) fillContract(fc *FuncContract, clauses []*rawClause, body *ast
 						lc.modifies = append(lc.modifies, cl)
 					}
 				}
+			case "skip":
+				// loop#n skip: the body is not executed symbolically; after the loop everything its body may assign is
+				// arbitrary.  Only for lemma-level contracts: needs `nopanic off`, and no return statement inside the loop
+				// when the function has postconditions (those returns would go unchecked)
+				hasRet := false
+				ast.Inspect(loopBody(loops[rc.ord-1]), func(n ast.Node) bool {
+					if _, ok := n.(*ast.FuncLit); ok {
+						return false
+					}
+					if _, ok := n.(*ast.ReturnStmt); ok {
+						hasRet = true
+					}
+					return true
+				})
+				lc.skip = true
+				lc.skipHasReturn = hasRet
 			case "unroll":
 				n, err := strconv.Atoi(sub.text)
 				if err != nil {
@@ -1337,6 +1356,10 @@ func (p *Program) fillContract(fc *FuncContract, clauses []*rawClause, body *ast
 			// only <func>...: in this body, contracts are used only for these callees; every other call with a
 			// contract is treated as a call without one (lemma-level contracts on large functions)
 			fc.only = append(fc.only, strings.Fields(rc.text)...)
+		case "dbonly":
+			// dbonly <func>...: in this body these callees are assumed to change nothing but database buckets and Go
+			// maps (no object in memory); results arbitrary, no precondition proved, nothing of their postcondition used
+			fc.dbonly = append(fc.dbonly, strings.Fields(rc.text)...)
 		case "dead":
 			// dead returns n: exactly n return statements are unreachable under the callee contracts (defensive
 			// error checks after calls that cannot fail there); the count is checked, not ordinals, so that adding
@@ -1402,6 +1425,20 @@ func (p *Program) fillContract(fc *FuncContract, clauses []*rawClause, body *ast
 			}
 		default:
 			return fmt.Errorf("%s: clause kind %q not allowed here", rc.where, rc.kind)
+		}
+	}
+	for ord, lc := range fc.loops {
+		if !lc.skip {
+			continue
+		}
+		nEns := 0
+		for _, c := range fc.ensures {
+			if !c.assume {
+				nEns++
+			}
+		}
+		if fc.nopanic || (lc.skipHasReturn && nEns > 0) {
+			p.bindIssues = append(p.bindIssues, bindIssue{fc.key, fmt.Sprintf("%s: loop#%d skip needs `nopanic off` and, when the loop body returns, a contract without postconditions", fc.where, ord)})
 		}
 	}
 	for ord, cls := range closureClauses {
